@@ -1,5 +1,6 @@
 import CedarVerif.Driver.Ops.Core
 import CedarVerif.Driver.Ops.Conf
+import CedarVerif.Driver.Ops.SchemaSyntax
 /-
 Line-protocol driver: one request per line on stdin, one reply per line on stdout.
 Unknown or malformed requests answer `(bad-op)`; the driver never defaults.
@@ -10,7 +11,8 @@ open CedarVerif
 
 def handlers : List (Sexp → Option String) := [
   Ops.handleCore,
-  Ops.handleConf
+  Ops.handleConf,
+  Ops.handleSchemaSyntax
 ]
 
 def handle (x : Sexp) : String :=
